@@ -709,6 +709,13 @@ func (g *lcGen) corrupt(r *rand.Rand, c *beacon.ConsensusLightClient, u *lcUpd, 
 	if r.Intn(9) == 0 && sharedSeatOnce() {
 		return
 	}
+	if r.Intn(25) == 0 && u.sigSlot >= 1 {
+		// a configuration, not a forgery: genesis lies in the future, so the current slot is 0 and every signature slot from 1 on
+		// is in the future
+		u.now = 0
+		u.corrupt = "pre-genesis"
+		return
+	}
 	straddles := c.Config.Spec.ForkVersion(common.Slot(u.sigSlot)) != c.Config.Spec.ForkVersion(u.att.Slot)
 	if (straddles && r.Intn(2) == 0 || r.Intn(14) == 0) && otherFork() {
 		return
@@ -884,6 +891,10 @@ func (g *lcGen) runUpdate(c *beacon.ConsensusLightClient, u *lcUpd, seq int, app
 		fv, gvr = [4]byte(c.Config.Spec.ForkVersion(common.Slot(u.sigSlot))), c.Config.Chain.GenesisRoot
 	}
 	lcPin(c, u.now)
+	if u.corrupt == "pre-genesis" {
+		// the chain this client is configured for has not started yet: its clock says slot 0, whatever the wall clock reads
+		c.Config.Chain.GenesisTime = uint64(time.Now().Unix()) + 100000
+	}
 	var sb strings.Builder
 	via := "generic"
 	if viaWrapper && obj != nil {
